@@ -7,6 +7,7 @@ import QM.Path
 import QM.Port
 import QM.Lookup
 import QM.Proc
+import QM.InstallModel
 
 /-! Line protocol of the model driver: the same operations as `src/verif_driver.rs` (answered by the
     model of the implementation) plus `spec_*` operations (answered by the specifications, used as
@@ -152,6 +153,9 @@ def step (line : String) : String :=
   | "unit" :: script => unitScript [] [] script
   | "convert" :: iu :: ord :: rest =>
       convertOp (iu == "1") (if ord == "-" then [] else (ord.splitOn ",").map String.toNat!) (pairsOf rest)
+  | ["plan_links", f, t] => match Parse.parse parseEnv (hexd t) with
+      | .ok u => "ok " ++ list ((Inst.planLinks (hexd f) u).flatMap fun (l, t) => [l, t])
+      | .error _ => "err Unit"
   | ["clean", a] => "ok " ++ hexe (Pth.cleaned (hexd a))
   -- the harness runs both drivers with the working directory "/"
   | ["absolute_from", r, a] => "ok " ++ hexe (Pth.absoluteFrom ['/'] (hexd r) (hexd a))
